@@ -260,7 +260,7 @@ func generate(do func(string), r *Rand, tier string) {
 			// a mutated copy
 			if len(pb) <= 3000 {
 				mp, err := newMessage(ar, m).MarshalPacked()
-				if err == nil {
+				if err == nil && len(mp) > 0 {
 					do("unmarshalpacked " + fmtBytes(mp))
 					do("unmarshalpacked " + fmtBytes(pb))
 					if len(mp) <= shortCut/3 {
@@ -349,6 +349,9 @@ func generate(do func(string), r *Rand, tier string) {
 			h := hdrLen(len(msgs[0]))
 			for j := 0; j < 1+r.Intn(2); j++ {
 				p := r.Intn(h)
+				if p >= len(mut) {
+					continue
+				}
 				switch r.Intn(3) {
 				case 0:
 					mut[p] ^= 1 << uint(r.Intn(8))
